@@ -496,3 +496,7 @@ pub fn dbg_field<T: std::fmt::Debug>(name: &str, dbg: &str, x: &T) -> String {
         json_strs(&alt)
     )
 }
+
+/// a relation every pair of types satisfies: lets generated programs write bounds that mention `Self`
+pub trait Rel<U: ?Sized> {}
+impl<A: ?Sized, U: ?Sized> Rel<U> for A {}
